@@ -12,7 +12,9 @@ import (
 	"fmt"
 	"hash"
 	"io"
+	gofs "io/fs"
 	"os"
+	"os/exec"
 	"path/filepath"
 	"runtime"
 	"sort"
@@ -30,6 +32,7 @@ import (
 func init() {
 	kinds[0x0401] = run0401
 	kinds[0x0801] = run0801
+	kinds[0x0802] = run0802
 	props["C04"] = genC04
 	props["C08"] = genC08
 }
@@ -58,6 +61,8 @@ type c04Pair struct {
 	activity   int64
 	E          [2]*c04End
 	onPacket   func(n int) // called after the n-th packet has been accepted by the stream
+	ctx        context.Context // the stream's own context (independent of Send's and Receive's)
+	cancelCtx  func()
 }
 
 type c04End struct {
@@ -85,6 +90,7 @@ func c04NewPair(capSR, capRS int) *c04Pair {
 	sr := make(chan []byte, capSR)
 	rs := make(chan []byte, capRS)
 	p := &c04Pair{down: make(chan struct{}), reqReached: make(chan struct{})}
+	p.ctx, p.cancelCtx = context.WithCancel(context.Background())
 	p.E[0] = &c04End{pair: p, idx: 0, send: sr, recv: rs, broken: make(chan struct{}), breakAt: -1}
 	p.E[1] = &c04End{pair: p, idx: 1, send: rs, recv: sr, broken: make(chan struct{}), breakAt: -1}
 	return p
@@ -100,7 +106,7 @@ func (p *c04Pair) Log() []c04Pkt {
 
 var _ fsutil.Stream = &c04End{}
 
-func (e *c04End) Context() context.Context { return context.Background() }
+func (e *c04End) Context() context.Context { return e.pair.ctx }
 
 func (e *c04End) CloseSend() { e.closeOne() }
 func (e *c04End) closeOne()  { e.closeOnce.Do(func() { close(e.send) }) }
@@ -247,6 +253,68 @@ func (e *c04End) RecvMsg(m interface{}) error {
 	}
 }
 
+// ---------------------------------------------------------------- source with fault hooks
+
+// c04HookFS wraps any fsutil.FS (the in-memory MemFS or an on-disk tree through fsutil.NewFS)
+// with the fault hooks: called before each reported walk entry / before Open / before each Read.
+type c04HookFS struct {
+	inner    fsutil.FS
+	WalkHook func(idx int, p string) error
+	OpenHook func(p string) error
+	ReadHook func(p string, off int) error
+	ChunkLen int // max bytes per Read (0 = whatever the caller asks for)
+	walkIdx  int
+}
+
+func (h *c04HookFS) Walk(ctx context.Context, target string, fn gofs.WalkDirFunc) error {
+	return h.inner.Walk(ctx, target, func(p string, d gofs.DirEntry, err error) error {
+		if err == nil && h.WalkHook != nil {
+			idx := h.walkIdx
+			h.walkIdx++
+			if e := h.WalkHook(idx, p); e != nil {
+				return e
+			}
+		}
+		return fn(p, d, err)
+	})
+}
+
+func (h *c04HookFS) Open(p string) (io.ReadCloser, error) {
+	if h.OpenHook != nil {
+		if err := h.OpenHook(p); err != nil {
+			return nil, err
+		}
+	}
+	rc, err := h.inner.Open(p)
+	if err != nil {
+		return nil, err
+	}
+	return &c04HookReader{h: h, path: p, rc: rc}, nil
+}
+
+type c04HookReader struct {
+	h    *c04HookFS
+	path string
+	rc   io.ReadCloser
+	off  int
+}
+
+func (r *c04HookReader) Read(b []byte) (int, error) {
+	if r.h.ReadHook != nil {
+		if err := r.h.ReadHook(r.path, r.off); err != nil {
+			return 0, err
+		}
+	}
+	if r.h.ChunkLen > 0 && len(b) > r.h.ChunkLen {
+		b = b[:r.h.ChunkLen]
+	}
+	n, err := r.rc.Read(b)
+	r.off += n
+	return n, err
+}
+
+func (r *c04HookReader) Close() error { return r.rc.Close() }
+
 // ---------------------------------------------------------------- goroutine census
 
 var c04StackMu sync.Mutex
@@ -328,6 +396,16 @@ type c04Cfg struct {
 	Chunk     int
 	Scribble  bool
 	Perturb   func() // nil = none
+	// Hold: the fault is held back until quiescence: a fault hook blocks where it would fail, a
+	// cancellation / endpoint failure is postponed; at the first quiescence it is released.
+	Hold bool
+	// SumGate: which files' digest computation (hash.Sum) is gated until their notification
+	SumGate func(path string) bool
+	// SrcDir != "": the source is that directory through fsutil.NewFS instead of the in-memory FS
+	SrcDir string
+	// Stall >= 0 (with Hold): the receiver-side callbacks of that entry block until the same moment
+	// and then return normally (a diff that is slower than the network).
+	Stall int
 }
 
 type c04Res struct {
@@ -336,6 +414,8 @@ type c04Res struct {
 	Hung             bool
 	TimedOut         bool
 	Quiesced         bool
+	HeldReleased     bool
+	SumReleased      int
 	Fired            bool
 	Leaks            int
 	Log              []c04Pkt
@@ -410,7 +490,15 @@ func c04Run(cfg c04Cfg) (res c04Res) {
 		pair.reqWant = cfg.Fanout
 		pair.E[0].gated = true
 	}
-	mem := &MemFS{Roots: cfg.View, ChunkLen: cfg.Chunk}
+	var srcfs fsutil.FS = &MemFS{Roots: cfg.View}
+	if cfg.SrcDir != "" {
+		// the real on-disk walker (fs.go) over a materialised copy of the view
+		var err error
+		if srcfs, err = fsutil.NewFS(cfg.SrcDir); err != nil {
+			panic(err)
+		}
+	}
+	mem := &c04HookFS{inner: srcfs, ChunkLen: cfg.Chunk}
 	chunk := cfg.Chunk
 	if chunk <= 0 {
 		chunk = 32 * 1024
@@ -418,15 +506,46 @@ func c04Run(cfg c04Cfg) (res c04Res) {
 	fpath, fnode := c04EntryPath(cfg.View, cfg.FA)
 	expected := c04Expected(cfg.View)
 	hashErrPath, notifyErrPath := "", ""
+	holdGate := make(chan struct{})
+	waitHold := func() {
+		if cfg.Hold {
+			select {
+			case <-holdGate:
+			case <-pair.down:
+			}
+		}
+	}
+	stallPath := ""
+	if cfg.Hold && cfg.Stall >= 0 {
+		stallPath, _ = c04EntryPath(cfg.View, cfg.Stall)
+	}
+	var fireHeld func() // postponed cancellation / endpoint failure
 	switch cfg.FaultKind {
 	case c04FBreak:
-		pair.E[cfg.FA&1].breakAt = int64(cfg.FB)
-	case c04FCancel:
-		cancel := cancelS
-		if cfg.FA&1 == 1 {
-			cancel = cancelR
+		if cfg.Hold {
+			e := pair.E[cfg.FA&1]
+			fireHeld = e.brk
+		} else {
+			pair.E[cfg.FA&1].breakAt = int64(cfg.FB)
 		}
-		if cfg.FB == 0 {
+	case c04FCancel:
+		// which context: 0 Send's, 1 Receive's, 2 the stream's own, 3 all three (one shared context)
+		cancelStream := func() { pair.cancelCtx(); pair.TearDown() }
+		cancel := cancelS
+		switch cfg.FA & 3 {
+		case 1:
+			cancel = cancelR
+		case 2:
+			cancel = cancelStream
+		case 3:
+			cancel = func() { cancelS(); cancelR(); cancelStream() }
+		}
+		if cfg.Hold {
+			fireHeld = func() {
+				atomic.StoreInt32(&fired, 1)
+				cancel()
+			}
+		} else if cfg.FB == 0 {
 			atomic.StoreInt32(&fired, 1)
 			cancel()
 		} else {
@@ -442,6 +561,7 @@ func c04Run(cfg c04Cfg) (res c04Res) {
 		a := cfg.FA
 		mem.WalkHook = func(idx int, p string) error {
 			if idx == a {
+				waitHold()
 				atomic.StoreInt32(&fired, 1)
 				return c04InjErr
 			}
@@ -458,6 +578,7 @@ func c04Run(cfg c04Cfg) (res c04Res) {
 					cfg.Perturb()
 				}
 				if p == fpath && off >= thr {
+					waitHold()
 					atomic.StoreInt32(&fired, 1)
 					return c04InjErr
 				}
@@ -468,6 +589,7 @@ func c04Run(cfg c04Cfg) (res c04Res) {
 		if fnode != nil {
 			mem.OpenHook = func(p string) error {
 				if p == fpath {
+					waitHold()
 					atomic.StoreInt32(&fired, 1)
 					return c04InjErr
 				}
@@ -487,17 +609,48 @@ func c04Run(cfg c04Cfg) (res c04Res) {
 		mem.ReadHook = func(p string, off int) error { cfg.Perturb(); return nil }
 	}
 	var nmu sync.Mutex
+	var gmu sync.Mutex // guards the Sum gates
+	notified := map[string]chan struct{}{}
+	sumRelease := make(chan struct{})
+	sumWaiters := 0
 	opt := fsutil.ReceiveOpt{
 		ContentHasher: func(st *types.Stat) (hash.Hash, error) {
 			if cfg.Perturb != nil {
 				cfg.Perturb()
 			}
 			if hashErrPath != "" && st.Path == hashErrPath {
+				waitHold()
 				atomic.StoreInt32(&fired, 1)
 				return nil, c04InjErr
 			}
-			h := &recHash{}
+			if stallPath != "" && st.Path == stallPath {
+				waitHold()
+			}
+			h := &c08Hash{}
 			h.Write(hdrFor(st))
+			if cfg.SumGate != nil && os.FileMode(st.Mode)&os.ModeType == 0 && cfg.SumGate(st.Path) {
+				// gate this file's digest computation (hash.Sum, called when its writer is closed):
+				// it blocks until the change notification for the file has been delivered — which
+				// a correct receiver does only afterwards — or, failing that, until everything is parked
+				gmu.Lock()
+				ch := make(chan struct{})
+				notified[st.Path] = ch
+				gmu.Unlock()
+				h.gate = func() {
+					gmu.Lock()
+					sumWaiters++
+					rel := sumRelease
+					gmu.Unlock()
+					select {
+					case <-ch:
+					case <-rel:
+					case <-pair.down:
+					}
+					gmu.Lock()
+					sumWaiters--
+					gmu.Unlock()
+				}
+			}
 			return h, nil
 		},
 		NotifyHashed: func(kind fsutil.ChangeKind, p string, fi os.FileInfo, err error) error {
@@ -505,9 +658,19 @@ func c04Run(cfg c04Cfg) (res c04Res) {
 				cfg.Perturb()
 			}
 			if notifyErrPath != "" && p == notifyErrPath {
+				waitHold()
 				atomic.StoreInt32(&fired, 1)
 				return c04InjErr
 			}
+			if stallPath != "" && p == stallPath {
+				waitHold()
+			}
+			gmu.Lock()
+			if ch, ok := notified[p]; ok {
+				delete(notified, p)
+				close(ch)
+			}
+			gmu.Unlock()
 			n := c04Notif{Kind: int(kind), Path: p}
 			if fi != nil {
 				if st, ok := fi.Sys().(*types.Stat); ok {
@@ -534,8 +697,11 @@ func c04Run(cfg c04Cfg) (res c04Res) {
 	start := time.Now()
 	var tornAt time.Time
 	torn := false
+	lastAct := int64(-1)
+	quietRuns := 0
 	tear := func() {
 		if !torn {
+			quietRuns, lastAct = 0, -1
 			torn = true
 			tornAt = time.Now()
 			pair.TearDown()
@@ -543,8 +709,7 @@ func c04Run(cfg c04Cfg) (res c04Res) {
 	}
 	tick := time.NewTicker(2 * time.Millisecond)
 	defer tick.Stop()
-	lastAct := int64(-1)
-	quietRuns := 0
+	released := false
 loop:
 	for pending > 0 {
 		select {
@@ -565,7 +730,26 @@ loop:
 			}
 		case <-tick.C:
 			if torn {
+				// hang detector: 10 s after tear-down — or earlier, as soon as it is certain that
+				// nothing can move any more: every goroutine of the two calls has been parked on a
+				// channel / mutex / wait group, with no stream activity, for 40 consecutive samples
+				// (after tear-down no event is left that could wake one of them)
 				if time.Since(tornAt) > 10*time.Second {
+					res.Hung = true
+					break loop
+				}
+				if len(sdone)+len(rdone) > 0 {
+					continue
+				}
+				act := atomic.LoadInt64(&pair.activity)
+				total, blocked := c04Census()
+				if total-base >= pending && total == blocked && act == lastAct {
+					quietRuns++
+				} else {
+					quietRuns = 0
+				}
+				lastAct = act
+				if quietRuns >= 40 {
 					res.Hung = true
 					break loop
 				}
@@ -589,6 +773,28 @@ loop:
 			lastAct = act
 			if quietRuns >= 3 {
 				// quiescence: every goroutine of both calls is parked and nothing moved
+				gmu.Lock()
+				if sumWaiters > 0 {
+					// a gated digest computation is what everybody waits for: let it go on
+					close(sumRelease)
+					sumRelease = make(chan struct{})
+					gmu.Unlock()
+					res.SumReleased++
+					quietRuns, lastAct = 0, -1
+					continue
+				}
+				gmu.Unlock()
+				if cfg.Hold && !released {
+					// release what was held back: the postponed event first, then the blocked hooks
+					released = true
+					res.HeldReleased = true
+					if fireHeld != nil {
+						fireHeld()
+					}
+					close(holdGate)
+					quietRuns, lastAct = 0, -1
+					continue
+				}
 				res.Quiesced = true
 				tear()
 			}
@@ -709,7 +915,15 @@ func c04CountReq(log []c04Pkt) int {
 
 var c04Stats = map[string]int{}
 
-// kind 0401.  input: (view prior (fault a b) fanout cap chunk)
+// kind 0401.  input: (view prior (fault a b [hold [stall]]) fanout cap chunk [srckind])
+//
+//	srckind != 0: the view is materialised on disk and served by the real walker (fsutil.NewFS)
+//	fault 2: a = which context is cancelled: 0 Send's, 1 Receive's, 2 the stream's, 3 one shared by all
+//
+//	hold != 0: the fault is held back until no goroutine of either call can move (its hook blocks
+//	where it would fail; a cancellation / endpoint failure is postponed, b is ignored), then released;
+//	stall = 1 + index of an entry whose ContentHasher / NotifyHashed calls block until that moment
+//	and then return normally (0 = none)
 //
 //	fault 0 none | 1 endpoint a (0 sender's, 1 receiver's) fails from its b-th operation on |
 //	2 context of a (0 Send, 1 Receive) cancelled when b packets have crossed (0: before the start) |
@@ -741,7 +955,22 @@ func run0401(in Sx) (out Sx) {
 		panic("materialize prior: " + err.Error())
 	}
 	cfg := c04Cfg{View: view, Dest: dest, FaultKind: f.L[0].Int(), FA: f.L[1].Int(), FB: f.L[2].Int(),
-		Fanout: in.L[3].Int(), Cap: in.L[4].Int(), Chunk: in.L[5].Int()}
+		Fanout: in.L[3].Int(), Cap: in.L[4].Int(), Chunk: in.L[5].Int(), Stall: -1}
+	if len(f.L) > 3 {
+		cfg.Hold = f.L[3].IsTrue()
+	}
+	if len(f.L) > 4 {
+		cfg.Stall = f.L[4].Int() - 1
+	}
+	if len(in.L) > 6 && in.L[6].IsTrue() {
+		cfg.SrcDir = filepath.Join(work, "src")
+		if err := os.Mkdir(cfg.SrcDir, 0755); err != nil {
+			panic(err)
+		}
+		if err := Materialize(view, cfg.SrcDir); err != nil {
+			panic("materialize source: " + err.Error())
+		}
+	}
 	res := c04Run(cfg)
 	var diffs []string
 	falseSucc := false
@@ -750,7 +979,7 @@ func run0401(in Sx) (out Sx) {
 		diffs = c04DestDiff(view, dest)
 		falseSucc = res.Recv == 0 && len(diffs) > 0
 		// a later fault-free transfer into whatever was left behind must converge
-		r2 := c04Run(c04Cfg{View: view, Dest: dest, Cap: 4, Chunk: cfg.Chunk})
+		r2 := c04Run(c04Cfg{View: view, Dest: dest, Cap: 4, Chunk: cfg.Chunk, Stall: -1, SrcDir: cfg.SrcDir})
 		followup = 1
 		if r2.Send == 0 && r2.Recv == 0 && !r2.Hung && len(c04DestDiff(view, dest)) == 0 {
 			followup = 0
@@ -774,6 +1003,9 @@ func run0401(in Sx) (out Sx) {
 	}
 	if res.TimedOut {
 		c04Stats["never_quiescent_timeout"]++
+	}
+	if res.HeldReleased {
+		c04Stats["held_fault_released_on_quiescence"]++
 	}
 	return L(NI(res.Send), NI(res.Recv), Bool(res.Hung), NI(res.Leaks), Bool(falseSucc), L(ds...), NI(followup),
 		Bool(c04HasErr(res.Log, 0)), Bool(c04HasErr(res.Log, 1)), Bool(res.Fired), Bool(nreq > 132))
@@ -877,6 +1109,11 @@ func c04Case(view, prior []*MNode, kind, a, b, fanout, capacity, chunk int) Sx {
 	return L(ViewSx(view), ViewSx(prior), L(NI(kind), NI(a), NI(b)), NI(fanout), NI(capacity), NI(chunk))
 }
 
+// c04CaseK: the same with the source kind (0 in-memory FS, 1 on-disk tree through fsutil.NewFS).
+func c04CaseK(view, prior []*MNode, kind, a, b, fanout, capacity, chunk, srckind int) Sx {
+	return L(ViewSx(view), ViewSx(prior), L(NI(kind), NI(a), NI(b)), NI(fanout), NI(capacity), NI(chunk), NI(srckind))
+}
+
 func genC04(g *Gen) {
 	r := g.Rng.Fork() // seeds k and k+1 of the shared generator yield the same stream shifted by one draw
 	emit := func(in Sx, cls string) {
@@ -918,7 +1155,7 @@ func genC04(g *Gen) {
 				b = 0
 			}
 		case c04FCancel:
-			a, b = r.Intn(2), r.Intn(4*ne+8)
+			a, b = r.Intn(4), r.Intn(4*ne+8) // which context: Send's / Receive's / the stream's / all
 			if r.Chance(15) {
 				b = 0
 			}
@@ -929,7 +1166,107 @@ func genC04(g *Gen) {
 		case c04FOpen, c04FHash, c04FNotify:
 			a = r.Intn(ne)
 		}
-		emit(c04Case(view, prior, kind, a, b, 0, Pick(r, []int{0, 0, 1, 2, 8, 64}), chunk), c04FaultNames[kind])
+		srckind := 0
+		cls := c04FaultNames[kind]
+		if r.Chance(30) {
+			srckind = 1
+			cls += "/disk-source"
+		}
+		emit(c04CaseK(view, prior, kind, a, b, 0, Pick(r, []int{0, 0, 1, 2, 8, 64}), chunk, srckind), cls)
+	}
+	// (b2) re-sync into an up-to-date (or nearly up-to-date) destination: no or few requests are
+	// outstanding when the fault strikes; every fault kind, cancellation of each of the contexts
+	// at every packet position; source mostly on disk (the real walker)
+	for i, nr := 0, g.Vol(120, 3000); i < nr; i++ {
+		chunk := 1 + r.Intn(4)
+		view, _ := c04GenTree(r, 6, []int{0, 1, 2, 3, 5, 8})
+		if r.Chance(30) {
+			for k, extra := 0, 5+r.Intn(30); k < extra; k++ {
+				view = append(view, c04File(fmt.Sprintf("m%03d", k), r.Intn(4), r.U64(), c04Mt+int64(k)))
+			}
+		}
+		var prior []*MNode
+		for _, n := range view {
+			if r.Chance(8) {
+				continue // one of the few entries that is not up to date
+			}
+			prior = append(prior, c04Clone(n))
+		}
+		ne := c04CountEntries(view)
+		kind, a, b := c04FCancel, r.Intn(4), 1+r.Intn(ne+3)
+		switch r.Intn(10) {
+		case 0:
+			kind, a, b = c04FWalk, r.Intn(ne), 0
+		case 1:
+			kind, a, b = c04FBreak, r.Intn(2), r.Intn(2*ne+4)
+		case 2:
+			kind, a, b = c04FNone, 0, 0
+		case 3, 4, 5, 6:
+			a = 0 // Send's own context
+		}
+		srckind := 1
+		if r.Chance(25) {
+			srckind = 0
+		}
+		cls := "resync-" + c04FaultNames[kind]
+		if srckind == 1 {
+			cls += "/disk-source"
+		}
+		emit(c04CaseK(view, prior, kind, a, b, 0, Pick(r, []int{0, 1, 8, 64}), chunk, srckind), cls)
+	}
+	// (c) long listings: the entries that follow a synchronously handled entry pile up in the
+	// receiver's walker channel (128) and diff channel (128) while the diff is held on that entry
+	// (listing sizes across the thresholds); the fault is released when everything is parked
+	thresholds := []int{0, 1, 100, 127, 128, 129, 200, 255, 256, 257, 258, 259, 260, 300, 400, 600}
+	for i, nl := 0, g.Vol(40, 600); i < nl; i++ {
+		after := Pick(r, thresholds)
+		if r.Chance(15) {
+			after = r.Intn(640)
+		}
+		pos := r.Intn(3)
+		var view, prior []*MNode
+		for k := 0; k < pos; k++ {
+			view = append(view, c04File(fmt.Sprintf("a%03d", k), r.Intn(4), r.U64(), c04Mt))
+		}
+		var pivot *MNode
+		switch r.Intn(10) {
+		case 0, 1:
+			pivot = c04Link("b-pivot", "nowhere", c04Mt)
+		case 2:
+			pivot = c04File("b-pivot", 1+r.Intn(3), r.U64(), c04Mt)
+		default:
+			pivot = c04Dir("b-pivot", c04Mt)
+		}
+		view = append(view, pivot)
+		samePrior := r.Chance(50)
+		for k := 0; k < after; k++ {
+			f := c04File(fmt.Sprintf("c%04d", k), r.Intn(3), r.U64(), c04Mt+int64(k))
+			view = append(view, f)
+			if samePrior {
+				prior = append(prior, c04Clone(f))
+			}
+		}
+		kind, a, b, hold, stall := c04FNotify, pos, 0, 1, 0
+		switch r.Intn(10) {
+		case 0, 1:
+			kind = c04FHash
+		case 2:
+			kind, a, stall = c04FCancel, 1+2*r.Intn(2), pos+1 // receiver's context (or all), diff stalled on the pivot
+		case 3:
+			kind, a, stall = c04FBreak, 1, pos+1
+		case 4:
+			kind, a, stall = c04FCancel, 0, pos+1
+		case 5:
+			kind = c04FWalk
+		case 6:
+			hold = 0 // not held: whenever the callback runs
+		}
+		in := L(ViewSx(view), ViewSx(prior), L(NI(kind), NI(a), NI(b), NI(hold), NI(stall)), NI(0), Pick(r, []Sx{NI(0), NI(1), NI(8), NI(64)}), NI(1+r.Intn(3)))
+		cls := "long-listing-" + c04FaultNames[kind]
+		if hold == 1 {
+			cls += "-held"
+		}
+		emit(in, cls)
 	}
 	for k, v := range c04Stats {
 		g.Note(k, v)
@@ -937,6 +1274,21 @@ func genC04(g *Gen) {
 }
 
 // ---------------------------------------------------------------- C08: forced schedules
+
+// c08Hash is the identity hash of e2e.go (Sum returns everything written) with a gate in Sum.
+type c08Hash struct {
+	recHash
+	gate func()
+}
+
+func (h *c08Hash) Sum(b []byte) []byte {
+	if h.gate != nil {
+		g := h.gate
+		h.gate = nil
+		g()
+	}
+	return h.recHash.Sum(b)
+}
 
 type c08Rng struct {
 	mu sync.Mutex
@@ -1023,7 +1375,22 @@ func run0801(in Sx) (out Sx) {
 		if err := Materialize(prior, dest); err != nil {
 			panic("materialize prior: " + err.Error())
 		}
-		res := c04Run(c04Cfg{View: view, Dest: dest, Cap: capacity, Chunk: chunk, Scribble: true, Perturb: perturb})
+		var sumGate func(string) bool
+		if s%2 == 1 {
+			// gate the digest computation of up to three files until their notification
+			gated := 0
+			var sgmu sync.Mutex
+			sumGate = func(string) bool {
+				sgmu.Lock()
+				defer sgmu.Unlock()
+				if gated < 3 && rr.intn(8) == 0 {
+					gated++
+					return true
+				}
+				return false
+			}
+		}
+		res := c04Run(c04Cfg{View: view, Dest: dest, Cap: capacity, Chunk: chunk, Scribble: true, Perturb: perturb, Stall: -1, SumGate: sumGate})
 		eq := !res.Hung && len(c04DestDiff(view, dest)) == 0
 		dg := ""
 		if !res.Hung {
@@ -1052,9 +1419,114 @@ func run0801(in Sx) (out Sx) {
 	return L(recs...)
 }
 
+// kind 0802 (supporting test OUTSIDE the model: data races are not modelled).  input: (ncases seed)
+// Builds this harness with `go build -race` against the same fsutil tree and runs the C08
+// generator (ncases cases, all their schedules) in that binary; counts the race detector's reports.
+// output: (built races cases child_ok info)
+func run0802(in Sx) (out Sx) {
+	defer func() {
+		if r := recover(); r != nil {
+			out = L(N(0), N(0), N(0), N(0), S(fmt.Sprint(r)))
+		}
+	}()
+	ncases := in.L[0].Int()
+	seed := in.L[1].U64()
+	exe, err := os.Executable()
+	if err != nil {
+		return L(N(0), N(0), N(0), N(0), S("no executable path"))
+	}
+	hdir := filepath.Dir(exe)
+	work := WorkDir("c08race-")
+	defer os.RemoveAll(work)
+	repo := os.Getenv("VERIF_REPO")
+	if repo == "" {
+		repo = "/repo"
+	}
+	if rp, err := filepath.EvalSymlinks(repo); err == nil {
+		repo = rp
+	}
+	mod, err := os.ReadFile(filepath.Join(hdir, "go.mod"))
+	if err != nil {
+		return L(N(0), N(0), N(0), N(0), S("no go.mod next to the harness binary"))
+	}
+	modfile := filepath.Join(work, "race.mod")
+	os.WriteFile(modfile, []byte(strings.Replace(string(mod), "=> /repo", "=> "+repo, 1)), 0644)
+	if sum, err := os.ReadFile(filepath.Join(repo, "go.sum")); err == nil {
+		os.WriteFile(filepath.Join(work, "race.sum"), sum, 0644)
+	}
+	env := append(os.Environ(), "CGO_ENABLED=1", "GOFLAGS=-mod=mod", "GOPROXY=off", "GOSUMDB=off", "GOTOOLCHAIN=local")
+	bin := filepath.Join(work, "vh_race")
+	bctx, bcancel := context.WithTimeout(context.Background(), 10*time.Minute)
+	defer bcancel()
+	build := exec.CommandContext(bctx, "go", "build", "-race", "-tags", "verif", "-modfile="+modfile, "-o", bin, ".")
+	build.Dir = hdir
+	build.Env = env
+	if b, err := build.CombinedOutput(); err != nil {
+		msg := string(b)
+		if len(msg) > 300 {
+			msg = msg[len(msg)-300:]
+		}
+		return L(N(0), N(0), N(0), N(0), S("race build failed: "+msg))
+	}
+	rctx, rcancel := context.WithTimeout(context.Background(), 20*time.Minute)
+	defer rcancel()
+	tsv := filepath.Join(work, "r.tsv")
+	run := exec.CommandContext(rctx, bin, "gen", "C08", "--seed", fmt.Sprint(seed), "--tier", "quick", "--out", tsv, "--stats", filepath.Join(work, "r.json"))
+	run.Env = append(env, "C08_CHILD=1", fmt.Sprintf("C08_CASES=%d", ncases), "VERIF_WORK="+work, "GORACE=halt_on_error=0 exitcode=0")
+	var stderr bytes.Buffer
+	run.Stderr = &stderr
+	rerr := run.Run()
+	rep := stderr.String()
+	races := strings.Count(rep, "WARNING: DATA RACE")
+	cases := 0
+	if data, err := os.ReadFile(tsv); err == nil {
+		cases = strings.Count(string(data), "\n")
+	}
+	info := ""
+	if races > 0 {
+		// the functions of the first report (top frame of each of the two accesses)
+		var fns []string
+		lines := strings.Split(rep, "\n")
+		for i, ln := range lines {
+			if (strings.HasPrefix(ln, "Write at") || strings.HasPrefix(ln, "Read at") || strings.HasPrefix(ln, "Previous ")) && i+1 < len(lines) {
+				fns = append(fns, strings.TrimSpace(lines[i+1]))
+			}
+			if len(fns) >= 2 {
+				break
+			}
+		}
+		info = strings.Join(fns, " | ")
+	} else if rerr != nil {
+		info = "child: " + rerr.Error()
+		if len(rep) > 200 {
+			info += ": " + rep[len(rep)-200:]
+		} else {
+			info += ": " + rep
+		}
+	}
+	return L(N(1), NI(races), NI(cases), Bool(rerr == nil), S(info))
+}
+
 func genC08(g *Gen) {
 	r := g.Rng.Fork()
 	n := g.Vol(120, 600)
+	child := os.Getenv("C08_CHILD") != ""
+	if v := os.Getenv("C08_CASES"); v != "" {
+		fmt.Sscan(v, &n)
+	}
+	if !child {
+		// supporting test outside the model: the same generator under the race detector (first, in
+		// its own process: a fatal "concurrent map writes" there is an output value, not a crash here)
+		in := L(NI(g.Vol(40, 600)), N(r.U64()%1000000))
+		out := run0802(in)
+		built := len(out.L) > 2 && out.L[0].IsTrue() && out.L[2].Int() > 0
+		if !built {
+			g.Note("race_detector_run", "NOT RUN: "+out.String())
+		} else {
+			g.Note("race_detector_run", fmt.Sprintf("%d cases under go build -race, %d reports", out.L[2].Int(), out.L[1].Int()))
+		}
+		g.EmitWith(0x0802, in, out, built, "race-detector-run(supporting, outside the model)")
+	}
 	nsched := g.Vol(8, 32)
 	for i := 0; i < n; i++ {
 		var view, prior []*MNode
